@@ -332,8 +332,10 @@ def s8(ctx, rep):
             thr = a[2]
     okt = thr is not None
     if okt:
-        td = [U(d) for d in local_defs(f, thr) if not isinstance(d, tuple)]
-        okt = len(td) == 1 and "self.n_workers" in td[0] and ("else 1" in td[0] or td[0] == "self.n_workers")
+        tdn = [d for d in local_defs(f, thr) if not isinstance(d, tuple)]
+        td = [U(d) for d in tdn]
+        okt = len(td) == 1 and (td[0] == "self.n_workers" or (
+            isinstance(tdn[0], ast.IfExp) and {U(tdn[0].body), U(tdn[0].orelse)} == {"self.n_workers", "1"}))
     rep.put(okt, "S8", "guarded_by", "Tuner._schedule_new_tasks: scheduling only when busy < threshold ∈ {n_workers, 1}", f, loops[0].ast,
             f"{busy} < {thr}", "new trials can be started although the number of busy workers is not below the threshold: "
             "more than n_workers trials occupy workers")
